@@ -575,7 +575,7 @@ def run(ctx):
     if F.lookup("C08", "abstract-without-subtypes:accepts-illegal"):
         schemas.append([E("a", expr=("oneof", [ent("b"), ent("c")])), E("b", ["a"]), E("c", ["a"], abstract=True)])
         labels.append("fixed:abstract-leaf")
-    nrand, ndirected, norders = (340, 64, 2) if quick else (1600, 480, 3)
+    nrand, ndirected, nmulti, norders = (300, 64, 56, 2) if quick else (1600, 480, 400, 3)
     # directed stream: shapes on which single statements of the matcher decide the verdict (two roots with asymmetric
     # sides; sub-supertypes with their own ONEOF/AND/ANDOR next to later siblings), names permuted so that every
     # alphabetical sibling order occurs
@@ -583,6 +583,10 @@ def run(ctx):
     for i in range(ndirected):
         shape = dshapes[i % len(dshapes)]
         schemas.append(G.directed_schema(ctx.rng, shape)); labels.append("directed:" + shape)
+    # several multiply-inheriting entities in one graph, inside one root or spanning two/three (the combo list of
+    # ComplexCollect::supports is joined per such member, in name order)
+    for i in range(nmulti):
+        schemas.append(G.multi_schema(ctx.rng)); labels.append("directed:multi-supertype-members")
     shapes = ["tree", "diamond", "tworoots", "free"]
     sizes = [5, 6, 7, 7, 8, 8] if quick else [4, 5, 6, 7, 7, 8, 8, 8]
     for i in range(nrand):
